@@ -8,7 +8,7 @@ from typing import Dict, List, Set
 from ..callgraph import callgraph
 from ..cfg import cfg_of, node_calls, nodes_dominate, reach
 from ..defuse import def_value, derives_from, reaching_defs
-from ..model import Repo, attr_chain, body_nodes, norm, short
+from ..model import Repo, ancestors, attr_chain, body_nodes, norm, short
 from .C04 import driver_filter
 from .C18 import write_fresh
 from .common import stale_bindings
@@ -32,9 +32,11 @@ def check(repo: Repo, rep, tier):
     diff_exact(repo, rep)
     tests_per_file(repo, rep)
     collect_all(repo, rep)
-    from .C03 import import_only
+    outer_compare(repo, rep)
+    from .C03 import import_only, import_scope
 
     import_only(repo, rep)
+    import_scope(repo, rep)
 
 
 def steps_of(repo: Repo, key: str) -> Dict[str, list]:
@@ -325,6 +327,49 @@ def tests_per_file(repo: Repo, rep):
         else:
             rep.violation("R-DRIVER-PER-FILE", f, (grows[0] if grows else lp), f"the list `{coll}` of test functions is {'grown across' if grows else 'not re-bound for'} the files while the loop that calls them runs once per file: the tests of earlier files are executed again, a test with module-level state records values a real session never sees", construct="tests-accumulate")
     rep.floor("R-DRIVER-PER-FILE", "test-call loops in run_inline", n, 1)
+
+
+def outer_compare(repo: Repo, rep):
+    rep.rule(
+        "R-OUTER-COMPARE",
+        "the testing drivers compare the caller's expectations (parameters such as changed_files, report, raises, reported_categories, stderr - usually "
+        "snapshot()s of the *outer* test) only after the inner session state has been left: no comparison with a parameter of Example.run_inline / run_pytest "
+        "lies inside a `with snapshot_env()` block.  Inside it the example's State is current: a mismatch is counted in a State that is thrown away and the "
+        "example's own flags (fix/create) make the comparison answer True - a wrong outer snapshot gives a green test",
+    )
+    n = 0
+    for key in ("testing/_example.py::Example.run_inline", "testing/_example.py::Example.run_pytest"):
+        f = repo.func(key)
+        params = set(f.params[1:])
+        for x in body_nodes(f.node):
+            if not isinstance(x, ast.Compare):
+                continue
+            if not any(isinstance(o, (ast.Eq, ast.NotEq, ast.LtE, ast.GtE, ast.In, ast.NotIn)) for o in x.ops):
+                continue
+            ops_ = [x.left] + list(x.comparators)
+            used = [o.id for o in ops_ if isinstance(o, ast.Name) and o.id in params]
+            # `p is not None` / `p == None` tests are not comparisons with the expectation
+            if not used or any(isinstance(o, ast.Constant) and o.value is None for o in ops_):
+                continue
+            n += 1
+            inside = None
+            for a in ancestors(x):
+                if isinstance(a, (ast.With, ast.AsyncWith)) and any(isinstance(i.context_expr, ast.Call) and norm(i.context_expr.func).split(".")[-1] == "snapshot_env" for i in a.items):
+                    inside = a
+                if a is f.node:
+                    break
+            if inside is None:
+                rep.ok("R-OUTER-COMPARE", f, x, f"`{used[0]}` is compared outside the inner session state")
+            else:
+                rep.violation(
+                    "R-OUTER-COMPARE",
+                    f,
+                    x,
+                    f"{f.qualname} compares the caller's `{used[0]}` inside `with snapshot_env()`: the outer test's snapshot is evaluated while the example's State (its flags, its counters) is current - "
+                    "a wrong or empty snapshot passed by the outer test is accepted and the test is green",
+                    construct=f"{f.qualname}:{used[0]}",
+                )
+    rep.floor("R-OUTER-COMPARE", "comparisons with caller-supplied expectations", n, 4)
 
 
 def collect_all(repo: Repo, rep):
